@@ -325,7 +325,7 @@ def run_group(bu, g, extra_defs=(), label=None):
     else:
         target = a_gb
     skip = set(g.attrs.get('skip_checks', '').split(','))
-    cb = ['cbmc', os.path.abspath(target)] + [c for c in CBMC_CHECKS if c not in skip] + ['--json-ui', '--trace', '--object-bits', g.attrs.get('object_bits', '10')]
+    cb = ['cbmc', os.path.abspath(target)] + [c for c in CBMC_CHECKS if c not in skip] + ['--object-bits', g.attrs.get('object_bits', '10')]
     if g.mode in ('plain', 'loops', 'unwind'):
         cb += ['--nondet-static']     # ghost globals are universally quantified, not zero (dfcc does this itself)
     if g.unwind:
@@ -346,26 +346,82 @@ def run_group(bu, g, extra_defs=(), label=None):
     if rc == -9:
         res.update(status='undecided', reason='cbmc timeout after %ds' % g.timeout)
         return res
-    try:
-        data = json.loads(out)
-    except Exception:
-        res.update(status='undecided', reason='cbmc produced no JSON (rc=%s): %s' % (rc, (err + out)[-800:]))
-        return res
-    props = None
+    # plain-text result list (the JSON UI always embeds counterexample traces, and printing the trace of the vacuity canary -- which
+    # fails by design -- took minutes for some groups)
+    props = []
     msgs = []
-    for item in data:
-        if 'result' in item:
-            props = item['result']
-        if item.get('messageType') in ('ERROR',):
-            msgs.append(item.get('messageText', ''))
-        if item.get('messageType') == 'WARNING' and 'ignoring' in item.get('messageText', ''):
-            msgs.append('WARNING ' + item.get('messageText', ''))
-    if props is None:
-        res.update(status='undecided', reason='cbmc gave no result list (rc=%s): %s' % (rc, ' | '.join(msgs)[-1200:]))
+    cur_fn = None
+    for line in out.split('\n'):
+        m = re.match(r'^\[([^\]]+)\] (?:line (\d+) )?(.*): (SUCCESS|FAILURE|UNKNOWN|ERROR)$', line)
+        if m:
+            d = {'property': m.group(1), 'description': m.group(3), 'status': m.group(4)}
+            if m.group(2):
+                d['sourceLocation'] = {'line': m.group(2), 'function': cur_fn}
+            props.append(d)
+            continue
+        m = re.match(r'^.* function (\S+)$', line)
+        if m:
+            cur_fn = m.group(1)
+        if 'ignoring' in line:
+            msgs.append('WARNING ' + line.strip())
+    if not props:
+        res.update(status='undecided', reason='cbmc gave no result list (rc=%s): %s' % (rc, (err + out)[-800:].replace('\n', ' | ')))
         return res
     if any('ignoring' in m for m in msgs):
         res.update(status='undecided', reason='cbmc ignored a quantifier: ' + ' | '.join(msgs)[:500])
         return res
+    # counterexample traces are only produced when an obligation other than the vacuity canary failed (the canary fails by design and
+    # its trace can be megabytes: printing it dominated the run time of some groups)
+    if any(p.get('status') == 'FAILURE' and 'VERIF-CANARY' not in p.get('description', '') for p in props):
+        cbt = cb[:2] + ['--trace', '--json-ui'] + cb[2:]
+        rc2, out2, err2, dt2 = run(cbt, timeout=g.timeout)
+        try:
+            for item in json.loads(out2):
+                if 'result' in item:
+                    props = item['result']
+        except Exception:
+            pass        # (trace run timed out or was cut: the plain result list stands, without input values)
     res['props'] = props
     res['status'] = 'done'
+    if os.environ.get('VERIF_COVER') == '1':
+        res['unreached'] = cover_group(bu, g, target, cfile, wd)
     return res
+
+
+def cover_group(bu, g, target, cfile, wd):
+    """partial-vacuity detector: which lines of the translated function bodies can no execution of this proof reach?
+    (an infeasible path -- contradictory assumed clauses of replaced contracts, a dropped statement -- verifies anything;
+    the end-of-harness canary only sees TOTAL vacuity)"""
+    cb = ['cbmc', os.path.abspath(target), '--cover', 'location', '--json-ui', '--object-bits', g.attrs.get('object_bits', '10')]
+    if g.mode in ('plain', 'loops', 'unwind'):
+        cb += ['--nondet-static']
+    if g.unwind:
+        cb += ['--unwind', g.unwind]
+    rc, out, err, dt = run(cb, timeout=g.timeout)
+    try:
+        data = json.loads(out)
+    except Exception:
+        return {'error': 'no coverage output (rc=%s)' % rc}
+    goals = []
+    for item in data:
+        if 'goals' in item:
+            goals = item['goals']
+    lines = open(cfile).read().split('\n')
+    per = {}
+    for gl in goals:
+        loc = gl.get('sourceLocation', {})
+        fn = (loc.get('function') or '').replace('_wrapped_for_contract_checking', '')
+        if fn not in bu.em.funcs or fn in g.replace or (fn in bu.unit.abstract):
+            continue
+        if not str(loc.get('file', '')).endswith('unit.c'):
+            continue
+        ln = int(loc.get('line', 0))
+        per.setdefault((fn, ln), []).append(gl.get('status') == 'satisfied')
+    out_ = {}
+    for (fn, ln), sts in sorted(per.items()):
+        if not any(sts):
+            text = lines[ln - 1].strip() if 0 < ln <= len(lines) else ''
+            if text.startswith('__CPROVER_') or text in ('{', '}', ''):
+                continue
+            out_.setdefault(fn, []).append('%d: %s' % (ln, text[:140]))
+    return out_
